@@ -23,7 +23,7 @@ from collections import Counter
 
 ROOT = os.path.dirname(os.path.dirname(os.path.abspath(__file__)))
 # evidence and replay files of runs against a scratch worktree (mutation experiments) never land in /verif
-OUT = ROOT if os.path.realpath(os.environ.get("VERIF_REPO", "/repo")) == "/repo" else os.environ.get("VERIF_OUT", "/tmp/verif-scratch")
+OUT = os.environ.get("VERIF_OUT") or (ROOT if os.path.realpath(os.environ.get("VERIF_REPO", "/repo")) == "/repo" else "/tmp/verif-scratch")
 MAX_REPORTED = 12          # replay files / VIOLATION lines per run
 MAX_SAMPLES = 6
 
